@@ -196,6 +196,12 @@ def generate(rng, tier, index):
                 emit(c)
         lines.append("k %s-end" % r["id"])
         expect_k.append(r["id"] + "-end")
+        if rng.random() < 0.04:
+            # a big resource (70..200 KB), mostly multi-byte characters
+            ch = rng.choice(["\u00e9", "\u65e5", "\U0001f600"])
+            pad = ["#" + "x" * rng.randint(0, 7)] + [
+                "# " + ch * 100 for _ in range(rng.randint(350, 700))]
+            lines[1:1] = pad
         files[path] = lines
 
     emit(res[0])
@@ -561,10 +567,34 @@ def _execute(plan, out, root, root_b, scratch):
             want_b = {"k": ["T-" + x for x in plan["expect_k"]],
                       "s": [[n, ["T-" + x for x in ks]]
                             for n, ks in plan["expect_s"]]}
+            ldc = ZConfig.loader.ConfigLoader(schema)
             for where, cw, cf, sf, wnt, base in (
                     ("twin", cwd_b, cfull_b, sfull_b, want_b, root_b),
                     ("back", cwd, cfull, sfull, want, root)):
                 os.chdir(cw)
+                # the same relative name through ONE loader object in both
+                # directories: a relative name means what it means now
+                w.begin_op("config:%s:rel-path-one-loader" % where)
+
+                def run4():
+                    cfg, _h = ldc.loadURL(os.path.relpath(cf))
+                    return {"ok": True, "got": {
+                        "k": list(cfg.k),
+                        "s": [[x.getSectionName(), list(x.k)]
+                              for x in cfg.s]}}
+                o = ops.guarded(run4)
+                w.end_op("ok" if o["ok"] else o["cls"])
+                out["evaluations"] += 1
+                if not o["ok"]:
+                    violation("load-failed", "config-after-chdir",
+                              "after chdir (%s) one ConfigLoader given the "
+                              "relative path raised %s" % (where,
+                                                           ops.brief(o)))
+                elif o["got"] != wnt:
+                    violation("wrong-result", "config-after-chdir",
+                              "after chdir (%s) one ConfigLoader given the "
+                              "relative path gives %r, expected %r"
+                              % (where, o["got"], wnt))
                 for entry in ("rel-path", "file-rel"):
                     w.begin_op("config:%s:%s" % (where, entry))
 
